@@ -25,10 +25,19 @@ def run_seed(sid):
     subprocess.run(['cp', '-r', '/repo', scratch], check=True)
     res = dict(id=sid, property=meta['property'], checks={})
     try:
+        if meta.get('retired'):
+            res['retired'] = meta['retired']
+            res['detected'] = None
+            json.dump(res, open(os.path.join(d, 'result.json'), 'w'), indent=1)
+            return res
         p = subprocess.run(['git', 'apply', '--whitespace=nowarn', os.path.join(d, 'patch.diff')], cwd=scratch, capture_output=True, text=True)
         if p.returncode != 0:
-            res['error'] = 'patch does not apply: ' + p.stderr
-            return res
+            # later fix commits moved the context: fall back to patch(1) with fuzz
+            p = subprocess.run(['patch', '-p1', '--fuzz=3', '--no-backup-if-mismatch', '-i', os.path.join(d, 'patch.diff')], cwd=scratch, capture_output=True, text=True)
+            if p.returncode != 0:
+                res['error'] = 'patch does not apply: ' + p.stdout + p.stderr
+                return res
+            res['applied_with'] = 'patch --fuzz=3 (context moved by later fix commits)'
         for pid in [meta['property']] + meta.get('also', []):
             t0 = time.time()
             env = dict(os.environ, VERIF_REPO=scratch, VERIF_NO_COQCHK='1')
@@ -81,7 +90,7 @@ def main():
         if not os.path.exists(os.path.join(ROOT, 'seeded', sid, 'meta.json')):
             continue
         r = run_seed(sid)
-        print(sid, r.get('property'), 'DETECTED' if r.get('detected') else 'missed', r.get('error', ''),
+        print(sid, r.get('property'), 'RETIRED' if r.get('retired') else ('DETECTED' if r.get('detected') else 'missed'), r.get('error', ''),
               ' '.join('%s[%s]:%s' % (k, v.get('tier', 'quick'), 'concrete' if v.get('concrete_input') else ('no-input' if v.get('violation_lines') else 'pass')) for k, v in r.get('checks', {}).items()))
 
 
